@@ -124,7 +124,7 @@ theorem msgsOf_replicate_none (n : Nat) : msgsOf (List.replicate n (Item.none : 
 delivered — for arbitrary event lists (errors and trailers anywhere) and any number of polls. -/
 theorem run_msgs_prefix (cd : Codec α) (cfg : DecCfg) (n : Nat) : ∀ (s : DecSt) (evs : List BodyEv),
     PhaseOk cfg s →
-    msgsOf (Dec.run cd cfg n s evs) <+: (specFrom cd cfg s (dataOf evs)).1 := by
+    msgsOf (Dec.run cd cfg n s evs) <+: (specFrom cd cfg s (accepted cfg evs)).1 := by
   induction n with
   | zero => intro s evs _; simp [Dec.run, msgsOf]
   | succ n ih =>
@@ -157,7 +157,7 @@ theorem run_at_end (cd : Codec α) (cfg : DecCfg) (n : Nat) : ∀ (s : DecSt),
   | succ n ih =>
     intro s hp hx he
     have hc := pollNext_clean cd cfg [] s [] hp rfl (by simpa [EndOk, endTr] using he)
-      (by simpa [dataOf] using hx)
+      (by simpa [accepted] using hx)
     simp only [Dec.run]
     generalize Dec.pollNext cd cfg s [] = r at hc
     obtain ⟨s', evs', o⟩ := r
@@ -182,7 +182,7 @@ theorem nonPending_replicate_none (n : Nat) :
 decoder reads as `ms` then a clean end is drained to exactly `ms`, then `None` for ever. -/
 theorem run_clean (cd : Codec α) (cfg : DecCfg) (n : Nat) : ∀ (s : DecSt) (evs : List BodyEv) (ms : List α),
     PhaseOk cfg s → CleanEvs evs = true → EndOk cfg s evs →
-    specFrom cd cfg s (dataOf evs) = (ms, .clean) → evs.length + ms.length < n →
+    specFrom cd cfg s (accepted cfg evs) = (ms, .clean) → evs.length + ms.length < n →
     ∃ k, 1 ≤ k ∧ nonPending (Dec.run cd cfg n s evs) = ms.map .msg ++ List.replicate k .none := by
   induction n with
   | zero => intro s evs ms _ _ _ _ h; omega
@@ -222,7 +222,7 @@ def Item.isTerminal : Item α → Bool
 /-- A drain loop always terminates: within `#events + #messages + 1` polls the stream reports
 the end of the stream or an error. -/
 theorem run_reaches_end (cd : Codec α) (cfg : DecCfg) (n : Nat) : ∀ (s : DecSt) (evs : List BodyEv),
-    PhaseOk cfg s → evs.length + (specFrom cd cfg s (dataOf evs)).1.length < n →
+    PhaseOk cfg s → evs.length + (specFrom cd cfg s (accepted cfg evs)).1.length < n →
     ∃ o ∈ Dec.run cd cfg n s evs, o.isTerminal = true := by
   induction n with
   | zero => intro s evs _ h; omega
